@@ -376,7 +376,13 @@ func doWarmup(w *sim.Warmup, budget uint64) {
 	}
 	for i := 0; i < w.Count; i++ {
 		run := w.From + uint64(i)*w.Stride
-		p, g := sim.Generate(prof, w.Seed, run)
+		var p *sim.Program
+		var g *sim.Gen
+		if len(w.Focus) > 0 {
+			p, g = sim.GenerateFocus(prof, w.Seed, run, w.Focus)
+		} else {
+			p, g = sim.Generate(prof, w.Seed, run)
+		}
 		opt := &sim.Options{Budget: budget, Sites: decimal128.VerifSiteCount, Property: prof.Property, Checks: false, Reverse: prof.Reverse}
 		opt.Plan = func(ei int, steps [][]uint64) { sim.PlanSchedule(g, p, ei, steps) }
 		sim.Execute(p, opt)
